@@ -259,14 +259,10 @@ def parseRun (run obs : Json) : E LRes := do
   let o ← parseOut (← field obs "out") (fieldOpt obs "meta")
   pure { cfg, edges, out := some o }
 
-def mapOut (f : ONode → ONode) (g : OEdge → OEdge) (o : Out) : Out := { nodes := o.nodes.map f, edges := o.edges.map g }
 
 def renameOut (ρ : String → String) (o : Out) : Out :=
   mapOut (fun n => if n.virt then n else { n with id := ρ n.id }) (fun e => { e with src := ρ e.src, dst := ρ e.dst }) o
 
-def scaleOut (c : Rat) (o : Out) : Out :=
-  mapOut (fun n => { n with x := c * n.x, y := c * n.y, w := c * n.w, h := c * n.h })
-         (fun e => { e with pts := e.pts.map (·.map fun p => (c * p.1, c * p.2)) }) o
 
 def shiftOut (dx : Rat) (o : Out) : Out :=
   mapOut (fun n => { n with x := n.x - dx }) (fun e => { e with pts := e.pts.map (·.map fun p => (p.1 - dx, p.2)) }) o
